@@ -192,6 +192,7 @@ def check(ctx):
     if not ctx.replay:
         for mods in MODULE_TWINS:
             ps.append({"mods": mods, "main": "file:///w/main.oal", "features": ["module-twins"], "ast": None})
+        ps += progs.shared_corpus()
     progs.feature_stats(ctx, ps)
     if not ctx.replay:
         # the evaluator tie: outcome (document, located error, panic site) of eval.rs = outcome of Model/Eval.v
